@@ -22,7 +22,10 @@ func TestC15(t *testing.T) {
 		_, err := run(&c)
 		return &c, err
 	}, func(rt *rapid.T) {
-		opts := SetGenOpts{AllowClass: false, CPs: []string{"", "", "Prevent", "IfNoController", "None"}, PoolSize: 4, MaxObjs: 2, MaxPhases: 3, ChainBias: true}
+		// (a few objects a namespaced owner must not write - cluster-scoped kinds, other namespaces: refused in-process, so
+		// refused when delegated)
+		opts := SetGenOpts{AllowClass: false, CPs: []string{"", "", "Prevent", "IfNoController", "None"}, PoolSize: 4, MaxObjs: 2, MaxPhases: 3, ChainBias: true,
+			Specials: []string{"clusterkind", "clusterkind-ns", "foreignns"}, SpecialRate: 12}
 		a := &Scenario{Prop: "C15"}
 		nsets := rapid.IntRange(1, 3).Draw(rt, "nsets")
 		created := 0
